@@ -87,7 +87,10 @@ def DIRS(p):
 
 
 def PARTS(name):
-    return _lib().split_seq(speclib.CTX, name, ".") if smt() else name.split(".")
+    """shared definition: specs/names.py NAME_PARTS"""
+    from .names import NAME_PARTS
+
+    return NAME_PARTS(name)
 
 
 def IS_DECIMAL(x):
@@ -153,8 +156,9 @@ class _Basename:
 
 # ------------------------------------------------------------------------------------------------ name accessors
 # full_name is the stored name (inlined); the other accessors are functions of its '.'-separated components, which
-# `__init__@basename` ties to the directories and the short name of the file (post#name-components).  specs/c09.py keeps
-# them as uninterpreted interface values ("their relation to full_name is C15's business").
+# `__init__@basename` ties to the directories and the short name of the file (post#name-components).  The definitions are
+# shared (specs/names.py): specs/c09.py states the interface contracts of the abstract DSDLFile accessors over the same
+# functions, so what is proved here about DSDLDefinition is exactly what C09 assumes of a definition object.
 def _seq_eq(a, b):
     return c05._seq_eq_str(a, b)
 
@@ -172,8 +176,9 @@ class _DefShortName:
     returns = Str
 
     def post(s):
-        c = PARTS(s.self._name)
-        return {"last-component": EQ(s.result, AT(c, LEN(c) - 1))}
+        from .names import SHORT_NAME_OF
+
+        return {"last-component": EQ(s.result, SHORT_NAME_OF(s.self._name))}
 
 
 @contract(DEF + ".root_namespace", props=P)
@@ -181,7 +186,9 @@ class _DefRootNamespace:
     returns = Str
 
     def post(s):
-        return {"first-component": EQ(s.result, AT(PARTS(s.self._name), 0))}
+        from .names import ROOT_NAMESPACE_OF
+
+        return {"first-component": EQ(s.result, ROOT_NAMESPACE_OF(s.self._name))}
 
 
 @contract(DEF + ".full_namespace", props=P)
@@ -189,10 +196,9 @@ class _DefFullNamespace:
     returns = Str
 
     def post(s):
-        c = PARTS(s.self._name)
-        r = PARTS(s.result)
-        return {"components-are-all-but-the-last": IMPLIES(LEN(c) >= 2, lambda: AND(
-            LEN(r) == LEN(c) - 1, FORALL_IDX(r, lambda i, x: x == AT(c, i))))}
+        from .names import IS_NAMESPACE_OF
+
+        return {"components-are-all-but-the-last": IS_NAMESPACE_OF(s.result, s.self._name)}
 
 
 def _register_parse_decimal():
